@@ -203,6 +203,34 @@ func TestVerifC16(t *testing.T) {
 						}
 						recovered += o.emitted
 					}
+					// ... also when the stream later reaches the id wrap: jump there
+					// (as if time had passed) and cross it with losses
+					if rng.chance(0.5) {
+						enc.next = enc.paws - uint32(n*rng.between(1, 3))
+						for _, sh := range dec.shardSet {
+							for _, pkt := range sh.elements {
+								defaultBufferPool.Put(pkt)
+							}
+						}
+						dec.shardSet = map[uint32]*shardHeap{}
+						dec.newestShardId = enc.next/uint32(n) - 1
+						for g := 0; g < 5; g++ {
+							grp, msg := makeGroup(enc, sizeVector("kcp-like", pr.ds, rng, maxPayload), rng, fecNoSkip)
+							if msg != "" {
+								break
+							}
+							o := newGroupOracle(&grp)
+							order := rng.perm(n)
+							for _, i := range order[min(pr.ps, 1):] {
+								if key, detail := o.feed(dec, i, true); key != "" {
+									rec.violation("C16 [after convergence, at the id wrap] "+key, detail, desc)
+									return
+								}
+							}
+							recovered += o.emitted
+						}
+						rec.count("post_convergence_wrap_crossings", 1)
+					}
 					rec.count("packets_recovered_after_convergence", int64(recovered))
 				}
 			}
